@@ -17,7 +17,7 @@ import shutil
 import subprocess
 import tempfile
 
-from .. import core, render, runner
+from .. import clexgraph, core, render, runner
 from . import C01, C05
 
 CFG = """SPECIFICATION Spec
@@ -185,8 +185,40 @@ def gfortran_validate(ctx, cases, limit, seed):
         raise core.MachineryError(f"reference disagrees with gfortran -cpp -E on {dis}/{n} cases")
 
 
+def oracle_scan(ctx, texts, name):
+    """FScan verdicts for harness-supplied texts (EvalFLex.tla); returns cases for the well-formed ones."""
+    os.makedirs(core.OUT, exist_ok=True)
+    tf = os.path.join(core.OUT, f"ftexts_{name}_{os.getpid()}.json")
+    lines = [t.split("\n")[:-1] for t in texts]
+    with open(tf, "w") as f:
+        json.dump(lines, f)
+    try:
+        cfg = "SPECIFICATION Spec\nCONSTANTS\n  Shard = @SHARD@\n  NShards = @NSHARDS@\nCHECK_DEADLOCK FALSE\n"
+        os.environ["TEXTS_FILE"] = tf
+        res = runner.sharded_tlc(ctx, "EvalFLex", cfg, 16, f"EvalFLex_{name}", timeout=3000)
+    finally:
+        os.environ.pop("TEXTS_FILE", None)
+        os.unlink(tf)
+    if len(res) != len(texts):
+        raise core.MachineryError(f"EvalFLex judged {len(res)} of {len(texts)} texts")
+    return [{"lines": lines[r["idx"] - 1], "counted": r["counted"], "dirs": r["dirs"]} for r in res if r["ok"]]
+
+
 def run(ctx):
     q = ctx.quick
+    # M: product of the implementation model (C pass in directives-only mode + fortran_cleaner) and the
+    # reference scanner, over character classes, any text length; then one text family per transition
+    dot = os.path.join(core.OUT, f"flex_{os.getpid()}")
+    r = core.tlc("MC_FLex", "MC_FLex.cfg", workers=1, timeout=600, tag="flex", extra=["-dump", "dot,actionlabels", dot])
+    ctx.add_tlc("MC_FLex (C pass + fortran_cleaner model x reference scanner, any text length, fixpoint)", r)
+    if r.violation:
+        ctx.model_violation("MC_FLex", r)
+    ttexts, ntr = clexgraph.transition_texts(dot + ".dot", clexgraph.F_CLASS_CHAR, clexgraph.F_SUFFIXES,
+                                             splice_action="EndLine(TRUE)", nl_action="EndLine(FALSE)")
+    os.unlink(dot + ".dot")
+    ctx.cov["product_graph_transitions"] = ntr
+    tcases = oracle_scan(ctx, ttexts, "trans")
+    ctx.cov["transition_texts_wellformed"] = len(tcases)
     p = os.path.join(core.OUT, f"GenFLex_M_{os.getpid()}.cfg")
     os.makedirs(core.OUT, exist_ok=True)
     open(p, "w").write(CFG.format(profile="small", maxlines=3, shard=1, nshards=1) + "INVARIANT RefSane\n")
@@ -206,7 +238,7 @@ def run(ctx):
     sim = runner.sharded_tlc(ctx, "GenFLex", CFG.format(profile="full", maxlines=12, shard=0, nshards=1), 16,
                              "GenFLex_sim", timeout=900, simulate=f"num={50 if q else 700}", depth=14, seed=ctx.seed + 2)
     seen, allc = set(), []
-    for c in cases + sim:
+    for c in cases + sim + tcases:
         k = "\n".join(c["lines"])
         if k not in seen:
             seen.add(k)
@@ -217,7 +249,9 @@ def run(ctx):
         "every sequence of up to MaxLines line templates (statements; literals with doubled quotes and embedded ! & //; "
         "trailing/full-line comments; sentinels !$omp !$acc !dir$; & continuations with/without leading &, with comments "
         "interleaved; literal continuations; preprocessor directives incl. continued ones) that FScan accepts, plus "
-        "simulated 12-line texts; FileParser.parse_file on .f90 compared with FScan; and GenC01's conditional programs "
+        "simulated 12-line texts, plus one family of texts per transition of the MC_FLex product graph (input history of "
+        "the source state + the transition's character + 15 completions, judged by FScan through EvalFLex); "
+        "FileParser.parse_file on .f90 compared with FScan; and GenC01's conditional programs "
         "rendered as Fortran compared per line through finder.find. non-trivial = some line is not counted")
     ctx.cov["exhaustive"] = True
     ctx.cov["texts"] = len(allc)
